@@ -1,2 +1,229 @@
-def run_group(run, group):
-    run.notes.append(f'E2 harnesses for {group}: not built yet')
+"""Engine E2 runner: Kani proof harnesses on the real f32/f64 instantiations.
+
+One `cargo kani` invocation per property group (harness name prefix), harnesses verified in
+parallel; failures are re-run with concrete playback and the concrete values are replayed
+against a native build of the same harness body (real libm, dev and release profile)."""
+import glob
+import os
+import re
+import subprocess
+import time
+
+from .core import VERIF, REPO
+
+KANI_DIR = os.path.join(VERIF, 'kani')
+TARGET = os.path.join(KANI_DIR, 'target', 'kani')
+NATIVE_TARGET = os.path.join(KANI_DIR, 'target', 'native')
+
+PREFIX = {'C02': 'c02_', 'C06': 'c06_', 'C07': 'c07_', 'C09': 'c09_', 'C10': 'c10_', 'C11': 'c11_',
+          'C13': 'c13_', 'C16': 'c16_', 'C18': 'c18_', 'C05': 'c05_'}
+
+IGNORED_CHECK = re.compile(r'^(NaN on |arithmetic overflow on floating-point)')
+
+
+def harness_list(prefix, tier):
+    out = []
+    for f in sorted(glob.glob(os.path.join(KANI_DIR, 'src', '*.rs'))):
+        mod = os.path.basename(f)[:-3]
+        src = open(f).read()
+        for m in re.finditer(r'pub fn (' + prefix + r'\w+)\(\)', src):
+            n = m.group(1)
+            if n.endswith('_slow') and tier != 'thorough':
+                continue
+            if '_witness_must_fail' in n:
+                out.append((mod, n, True))
+            else:
+                out.append((mod, n, False))
+    return out
+
+
+def _env():
+    env = dict(os.environ, CARGO_NET_OFFLINE='true')
+    env.pop('RUSTUP_TOOLCHAIN', None)
+    return env
+
+
+def _sync_lock():
+    src = os.path.join(REPO, 'Cargo.lock')
+    dst = os.path.join(KANI_DIR, 'Cargo.lock')
+    if not os.path.exists(dst) and os.path.exists(src):
+        import shutil
+        shutil.copy(src, dst)
+
+
+def parse_terse(text):
+    """returns {harness: {'status':..., 'failed': [...], 'time': float}}"""
+    res = {}
+    cur = {}     # thread -> harness
+    last_thread = None
+    cur_single = None
+    for line in text.splitlines():
+        m = re.match(r'(?:Thread (\d+): )?Checking harness ([\w:]+)\.\.\.', line)
+        if m:
+            th = m.group(1) or 'x'
+            cur[th] = m.group(2)
+            res[m.group(2)] = {'status': 'UNKNOWN', 'failed': [], 'time': None, 'cover': None}
+            cur_single = m.group(2)
+            continue
+        m = re.match(r'Thread (\d+):\s*$', line)
+        if m:
+            last_thread = m.group(1)
+            continue
+        h = cur.get(last_thread) if last_thread is not None else cur_single
+        if h is None:
+            continue
+        m = re.match(r'Failed Checks: (.*)', line)
+        if m:
+            res[h]['failed'].append(m.group(1).strip())
+            continue
+        m = re.match(r'\s*\*\* (\d+) of (\d+) cover properties satisfied', line)
+        if m:
+            res[h]['cover'] = (int(m.group(1)), int(m.group(2)))
+            continue
+        m = re.match(r'VERIFICATION:- (\w+)', line)
+        if m:
+            res[h]['status'] = m.group(1)
+            continue
+        m = re.match(r'Verification Time: ([\d.]+)s', line)
+        if m:
+            res[h]['time'] = float(m.group(1))
+            continue
+        if 'out of memory' in line.lower() or 'Status: ERROR' in line:
+            res[h]['status'] = 'ERROR'
+    return res
+
+
+def run_kani(names, jobs, timeout_s, extra=()):
+    _sync_lock()
+    cmd = ['cargo', 'kani', '--target-dir', TARGET, '-Z', 'stubbing', '--output-format', 'terse', '--exact']
+    if jobs > 1:
+        cmd += ['-j', str(jobs)]
+    for (mod, n) in names:
+        cmd += ['--harness', f'{mod}::{n}']
+    cmd += list(extra)
+    t0 = time.time()
+    try:
+        p = subprocess.run(cmd, cwd=KANI_DIR, env=_env(), stdout=subprocess.PIPE, stderr=subprocess.STDOUT,
+                           text=True, timeout=timeout_s)
+        out = p.stdout
+        timed_out = False
+    except subprocess.TimeoutExpired as e:
+        out = (e.stdout or b'').decode() if isinstance(e.stdout, bytes) else (e.stdout or '')
+        timed_out = True
+        subprocess.run(['pkill', '-f', 'cbmc.*' + re.escape(TARGET)], check=False)
+    return out, time.time() - t0, timed_out
+
+
+def playback_values(mod, name, timeout_s=900):
+    cmd = ['cargo', 'kani', '--target-dir', TARGET, '-Z', 'stubbing', '--exact', '--harness', f'{mod}::{name}',
+           '-Z', 'concrete-playback', '--concrete-playback=print']
+    try:
+        p = subprocess.run(cmd, cwd=KANI_DIR, env=_env(), stdout=subprocess.PIPE, stderr=subprocess.STDOUT,
+                           text=True, timeout=timeout_s)
+    except subprocess.TimeoutExpired:
+        return None, 'playback timed out'
+    blocks = re.findall(r'Check for `(\w+)`: "([^"]*)".*?let concrete_vals: Vec<Vec<u8>> = vec!\[(.*?)\n\s*\];',
+                        p.stdout, flags=re.S)
+    for kind, desc, body in blocks:
+        if kind == 'cover' or IGNORED_CHECK.match(desc):
+            continue
+        vals = re.findall(r'vec!\[([\d, ]*)\]', body)
+        return [[int(x) for x in v.split(',') if x.strip()] for v in vals], desc
+    return None, 'no playback block for a failed assertion'
+
+
+_native_built = {}
+
+
+def native_replay(name, vals, release):
+    key = 'release' if release else 'dev'
+    if key not in _native_built:
+        cmd = ['cargo', 'build', '--offline', '--bin', 'replay', '--target-dir', NATIVE_TARGET]
+        if release:
+            cmd.append('--release')
+        p = subprocess.run(cmd, cwd=KANI_DIR, env=_env(), stdout=subprocess.PIPE, stderr=subprocess.STDOUT, text=True)
+        _native_built[key] = p.returncode == 0
+        if p.returncode != 0:
+            return 'build failed: ' + p.stdout[-400:]
+    exe = os.path.join(NATIVE_TARGET, 'release' if release else 'debug', 'replay')
+    args = [exe, name] + [''.join(f'{b:02x}' for b in v) if v else '00' for v in vals]
+    p = subprocess.run(args, stdout=subprocess.PIPE, stderr=subprocess.PIPE, text=True, timeout=120)
+    m = re.search(r'REPLAY (.*)', p.stdout)
+    return m.group(1) if m else 'crashed: ' + (p.stderr[-300:] or p.stdout[-300:])
+
+
+def run_group(run, group, jobs=None):
+    prefix = PREFIX[group]
+    hs = harness_list(prefix, run.tier)
+    if not hs:
+        run.notes.append(f'no Kani harness registered for {group}')
+        return
+    jobs = jobs or int(os.environ.get('VERIF_KANI_JOBS', '8'))
+    timeout_s = 1500 if run.tier == 'quick' else 4 * 3600
+    out, wall, timed_out = run_kani([(m, n) for (m, n, _w) in hs], jobs, timeout_s)
+    res = parse_terse(out)
+    if 'error: could not compile' in out or 'Failed to execute cargo' in out or 'error[E' in out:
+        run.inconclusive.append({'engine': 'kani', 'reason': 'harness crate does not compile against /repo',
+                                 'output': out[-1500:]})
+        return
+    run.solver_time += wall
+    for (mod, n, witness) in hs:
+        full = f'{mod}::{n}'
+        r = res.get(full)
+        run.obligations += 1
+        run.queries += 1
+        run.functions.add('kani:' + n)
+        entry = {'harness': full, 'status': r['status'] if r else 'MISSING', 'time_s': r['time'] if r else None}
+        if r is None or r['status'] in ('UNKNOWN', 'ERROR'):
+            entry['note'] = 'no verdict (timeout / out of memory)' if (timed_out or r) else 'harness did not run'
+            run.kani.append(entry)
+            run.inconclusive.append({'engine': 'kani', 'harness': full, 'reason': entry['note']})
+            continue
+        real_fail = [c for c in r['failed'] if not IGNORED_CHECK.match(c)]
+        entry['failed_checks'] = real_fail
+        entry['cover'] = r['cover']
+        if witness:
+            # vacuity guard: a twin with a deliberately false final assertion must fail
+            if real_fail:
+                run.discharged += 1
+                run.vacuity_witnesses += 1
+                entry['status'] = 'WITNESS-FAILED-AS-REQUIRED'
+            else:
+                run.inconclusive.append({'engine': 'kani', 'harness': full,
+                                         'reason': 'reachability witness did not fail: harness group may be vacuous'})
+            run.kani.append(entry)
+            continue
+        if not real_fail and r['status'] in ('SUCCESSFUL', 'FAILED'):
+            # FAILED with only ignored generic float checks counts as success of the harness's claims
+            if r['cover'] and r['cover'][0] == 0 and r['cover'][1] > 0:
+                run.inconclusive.append({'engine': 'kani', 'harness': full,
+                                         'reason': 'no cover property satisfied: assumptions may be vacuous'})
+            else:
+                run.discharged += 1
+                run.case_keys.add('kani:' + full)
+            run.kani.append(entry)
+            continue
+        # genuine failed check: concrete playback, native replay (dev + release)
+        vals, desc = playback_values(mod, n)
+        role = f'{group}:{n}'
+        detail = {'engine': 'kani', 'harness': full, 'failed_checks': real_fail[:4], 'role': role}
+        if vals is None:
+            detail['reason'] = 'failed in CBMC but no concrete playback available: ' + str(desc)
+            # unwinding assertions, overflow and memory-safety checks are reported without playback
+            run.inconclusive.append(detail)
+            run.kani.append(entry)
+            continue
+        detail['concrete_values'] = vals
+        rd = native_replay(n, vals, release=False)
+        rr = native_replay(n, vals, release=True)
+        detail['native_dev'] = rd
+        detail['native_release'] = rr
+        if rd.startswith('failed') or rr.startswith('failed'):
+            run.violations.append(detail)
+        else:
+            detail['reason'] = 'CBMC counterexample did not reproduce natively (stub artefact or model mismatch)'
+            run.inconclusive.append(detail)
+        run.kani.append(entry)
+    if len(run.samples) < 6:
+        run.sample({'engine': 'kani', 'group': group, 'harnesses': [n for (_m, n, _w) in hs][:12],
+                    'wall_s': round(wall, 1)})
